@@ -67,6 +67,7 @@ func c14Rename(tc *scCase) []scItem {
 type c14Cursor struct {
 	file    int
 	line    int
+	col     int
 	vis     []int
 	pend    []int
 	stepP   int // completion with prefix "p"
@@ -97,32 +98,33 @@ func c14Build(seed int64) func(id int, raw json.RawMessage) *Job {
 			return nil
 		}
 		items := c14Rename(&tc)
-		r := scRenderProg(items)
+		mode := scModeOf(raw, scSeed)
+		r := scRenderMode(items, mode)
 		pc := &proto.Case{ID: id, Files: r.files(), Init: json.RawMessage(allOnLocal)}
 		for i, f := range r.Files {
 			pc.Steps = append(pc.Steps, openStep(f, r.Text[i]))
 		}
 		d := &c14Data{tc: &tc, r: r}
 		// candidate cursor points: before each item's line (inside whatever block is open there), and the end of the last file
+		// (one-line layout: the same points, the prefix is typed between two statements of the line)
 		type pt struct {
 			file, line int
 			vis        []int
 			pend       []int
+			col        int
 		}
 		var pts []pt
 		file, line := 0, 0
-		for _, it := range items {
+		for i, it := range items {
 			if it.K == "file" {
 				file++
 				line = 0
 				continue
 			}
-			if it.K != "untilc" || true {
-				pts = append(pts, pt{file, line, it.Vis, it.VisPend})
-			}
+			pts = append(pts, pt{file, line, it.Vis, it.VisPend, r.ItemAt[i][1]})
 			line++
 		}
-		pts = append(pts, pt{file, line, tc.VisEnd, nil})
+		pts = append(pts, pt{file, line, tc.VisEnd, nil, -1})
 		h := fnv.New64a()
 		h.Write(raw)
 		hv := h.Sum64() ^ uint64(seed)*0x9e3779b97f4a7c15
@@ -141,12 +143,43 @@ func c14Build(seed int64) func(id int, raw json.RawMessage) *Job {
 			}
 			f := r.Files[p.file]
 			cu := c14Cursor{file: p.file, line: p.line, vis: p.vis, pend: p.pend}
+			cu.prefix2 = "p" + string(rune('a'+int(hv>>7)%3))
+			if mode == 1 {
+				// one-line layout: an editor types "p " in front of the statement (or " p" after the last one), asks,
+				// types one more letter, asks, then removes what it typed
+				ln, col, ins := 0, p.col, "p "
+				if col < 0 {
+					ll := 0
+					if len(r.Lines[p.file]) > 0 {
+						ll = len(r.Lines[p.file][0])
+					}
+					col, ins = ll+1, " p"
+					pc.Steps = append(pc.Steps, changeStep(f, ver, ln, col-1, ln, col-1, ins))
+				} else {
+					pc.Steps = append(pc.Steps, changeStep(f, ver, ln, col, ln, col, ins))
+				}
+				ver++
+				cu.line, cu.col = ln, col
+				pc.Steps = append(pc.Steps, proto.Step{M: "textDocument/completion", P: compParams(f, ln, col+1)})
+				cu.stepP = len(pc.Steps) - 1
+				pc.Steps = append(pc.Steps, changeStep(f, ver, ln, col+1, ln, col+1, cu.prefix2[1:]))
+				ver++
+				pc.Steps = append(pc.Steps, proto.Step{M: "textDocument/completion", P: compParams(f, ln, col+2)})
+				cu.stepP2 = len(pc.Steps) - 1
+				if p.col < 0 {
+					pc.Steps = append(pc.Steps, changeStep(f, ver, ln, col-1, ln, col+2, ""))
+				} else {
+					pc.Steps = append(pc.Steps, changeStep(f, ver, ln, col, ln, col+3, ""))
+				}
+				ver++
+				d.cur = append(d.cur, cu)
+				continue
+			}
 			// an editor types "p" on a fresh line, asks, types one more letter, asks, then the line is removed
 			pc.Steps = append(pc.Steps, changeStep(f, ver, p.line, 0, p.line, 0, "p\n"))
 			ver++
 			pc.Steps = append(pc.Steps, proto.Step{M: "textDocument/completion", P: compParams(f, p.line, 1)})
 			cu.stepP = len(pc.Steps) - 1
-			cu.prefix2 = "p" + string(rune('a'+int(hv>>7)%3))
 			pc.Steps = append(pc.Steps, changeStep(f, ver, p.line, 1, p.line, 1, cu.prefix2[1:]))
 			ver++
 			pc.Steps = append(pc.Steps, proto.Step{M: "textDocument/completion", P: compParams(f, p.line, 2)})
@@ -269,7 +302,7 @@ func c14Judge(c *Ctx, j *Job, res *proto.Result) {
 				continue
 			}
 			sort.Strings(prob)
-			desc := fmt.Sprintf("completion of prefix %q typed on a new line %d of %s: %s (labels: %s)\n%s", prefix, cu.line, d.r.Files[cu.file], strings.Join(prob, "; "), strings.Join(labels, ","), progText(d.r))
+			desc := fmt.Sprintf("completion of prefix %q typed at statement %d (column %d) of %s: %s (labels: %s)\n%s", prefix, cu.line, cu.col, d.r.Files[cu.file], strings.Join(prob, "; "), strings.Join(labels, ","), progText(d.r))
 			if surveyMode {
 				for _, p := range prob {
 					f := strings.Fields(p)
@@ -290,7 +323,7 @@ func checkC14(c *Ctx) {
 		"keywords, snippets and built-ins among the labels are ignored (they are not generated names)",
 	}
 	scLight = true
-	scNoOneLine = true
+	scSeed = c.Seed
 	if c.Replay != "" {
 		raw, err := loadReplayCase(c.Replay)
 		if err != nil {
